@@ -30,6 +30,10 @@ ASSUMPTIONS = [
     "daterange_history: one DateRange object modified through its public attributes (the class docstring "
     "allows manipulation before any computation), the sign of step kept coherent with stop - start as the "
     "constructor demands; list / len / membership are recomputed from the current attributes after every op",
+    "clones: a Date (or a list / dict / DateRange holding it) that went through pickle (protocols 0, 2, default), "
+    "copy.copy or copy.deepcopy is the same instant with the same label: equal, hash-equal, same d / s / eop, and "
+    "every conversion / arithmetic result is exactly that of the original; every Date of the other date facets "
+    "travels that way in half of the cases",
     "DateRange membership is interval membership (the docstring example is off-grid), zero-length "
     "ranges are generated for positive steps only",
     "EOP configurations per shard: real tables / zero corrections with real leap seconds / no database "
@@ -72,12 +76,22 @@ def readings(us):
     return iers.readings(us, tab(), cfg())
 
 
+_CLONE = {"how": "none"}
+
+
+def use_clone(case):
+    """Every Date built by mk() / at() for this case first travels through pickle / copy / deepcopy
+    (drawn per case): a clone is the same instant with the same label, nothing may change."""
+    _CLONE["how"] = case.get("clone", "none")
+    return [] if _CLONE["how"] == "none" else [f"clone:{_CLONE['how']}"]
+
+
 def mk(us, scale, r=None):
     """Library Date of the instant `us` labelled `scale`, from the oracle's clock reading."""
     from beyond.dates import Date
 
     r = r or readings(us)
-    return Date(gd.us_to_datetime(r[scale]), scale=scale)
+    return gd.clone(Date(gd.us_to_datetime(r[scale]), scale=scale), _CLONE["how"])
 
 
 def reading_us(date):
@@ -108,7 +122,7 @@ def labels_straddle(r):
 
 
 def classes_for(us, scales):
-    c = [f"eop:{cfg()}", gd.era(us)]
+    c = [f"eop:{cfg()}", gd.era(us)] + ([] if _CLONE["how"] == "none" else [f"clone:{_CLONE['how']}"])
     if near_midnight(us):
         c.append("near0h")
     if set(scales) & {"UT1", "TDB"}:
@@ -126,10 +140,11 @@ def conv_case(draw, shard, tier):
     X = draw(gd.scales())
     third = dict(dus=draw(st.sampled_from([0, 0, 1, -1, 2, -2]) | gd.mixed_int(-100 * US, 100 * US)),
                  scale=draw(gd.scales()))
-    return dict(us=us, S=S, X=X, third=third)
+    return dict(us=us, S=S, X=X, third=third, clone=draw(gd.clone_modes()))
 
 
 def check_same_instant(case):
+    _cl = use_clone(case)
     us, S, X = case["us"], case["S"], case["X"]
     r = readings(us)
     d = mk(us, S, r)
@@ -178,6 +193,7 @@ def check_same_instant(case):
 
 
 def check_round_trip(case):
+    _cl = use_clone(case)
     us, S, X = case["us"], case["S"], case["X"]
     r = readings(us)
     d = mk(us, S, r)
@@ -204,10 +220,11 @@ def check_round_trip(case):
 
 @st.composite
 def offsets_case(draw, shard, tier):
-    return dict(us=draw(gd.instants(leap_days())), S=draw(gd.scales()))
+    return dict(us=draw(gd.instants(leap_days())), S=draw(gd.scales()), clone=draw(gd.clone_modes()))
 
 
 def check_offsets(case):
+    _cl = use_clone(case)
     us, S = case["us"], case["S"]
     r = readings(us)
     d = mk(us, S, r)
@@ -400,10 +417,11 @@ def arith_case(draw, shard, tier):
     # UTC is uniform only while no leap second intervenes: otherwise the same case is run in TAI
     if S == "UTC" and not gd.leap_free(us + lo, us + hi, leaps):
         S = "TAI"
-    return dict(us=us, S=S, t1=t1, t2=t2)
+    return dict(us=us, S=S, t1=t1, t2=t2, clone=draw(gd.clone_modes()))
 
 
 def check_arith(case):
+    _cl = use_clone(case)
     from beyond.dates import Date
 
     us, S, t1, t2 = case["us"], case["S"], case["t1"], case["t2"]
@@ -436,7 +454,7 @@ def check_arith(case):
     if t1 == 0 and not (d1 == d and hash(d1) == hash(d)):
         raise Violation("add-zero", f"d + 0 != d or hashes differ for {d}")
     crosses = (r[S] // US_DAY) != ((r[S] + t1) // US_DAY)
-    return dict(nt=True, cls=[f"eop:{cfg()}", f"scale:{S}", gd.era(us)] + (["crosses-day"] if crosses else []) +
+    return dict(nt=True, cls=[f"eop:{cfg()}", f"scale:{S}", gd.era(us)] + _cl + (["crosses-day"] if crosses else []) +
                 (["t<0"] if t1 < 0 else []) + (["|t|>1d"] if abs(t1) > US_DAY else []) + (["|t|<1s"] if abs(t1) < US else []),
                 ratio=worst / 1.0)
 
@@ -455,7 +473,7 @@ def oeh_case(draw, shard, tier):
         delta = 0
     relabel_a = draw(st.lists(gd.scales(), max_size=3))
     relabel_b = draw(st.lists(gd.scales(), max_size=3))
-    return dict(us=us, A=A, B=B, delta=delta, relabel_a=relabel_a, relabel_b=relabel_b)
+    return dict(us=us, A=A, B=B, delta=delta, relabel_a=relabel_a, relabel_b=relabel_b, clone=draw(gd.clone_modes()))
 
 
 def _cmp_facts(a, b):
@@ -463,6 +481,7 @@ def _cmp_facts(a, b):
 
 
 def check_oeh(case):
+    _cl = use_clone(case)
     us, A, B, delta = case["us"], case["A"], case["B"], case["delta"]
     a = mk(us, A)
     b = mk(us + delta, B)
@@ -502,7 +521,7 @@ def check_oeh(case):
     if abs(diff + delta) > fuzz:
         raise Violation("difference-wrong", f"{a!s} - {b!s} = {diff} us, instants differ by {-delta} us (tol {fuzz})")
     return dict(nt=(len(set(labels)) > 1) or near_midnight(us),
-                cls=[f"eop:{cfg()}"] + (["equal-instants"] if delta == 0 else []) + (["exact-labels"] if exact else ["inexact-labels"])
+                cls=[f"eop:{cfg()}"] + _cl + (["equal-instants"] if delta == 0 else []) + (["exact-labels"] if exact else ["inexact-labels"])
                 + (["compared-equal"] if f["eq"] else []))
 
 
@@ -535,10 +554,11 @@ def range_case(draw, shard, tier):
     probes = draw(st.lists(st.sampled_from(["start", "stop", "start-1", "start+1", "stop-1", "stop+1", "mid", "far-", "far+"])
                            | st.integers(-2, 42), min_size=2, max_size=8))
     via = draw(st.sampled_from(["Date.range", "DateRange"]))
-    return dict(us=us, S=S, S2=S2, step=step, span=span, stop_kind=stop_kind, inclusive=inclusive, probes=probes, via=via)
+    return dict(us=us, S=S, S2=S2, step=step, span=span, stop_kind=stop_kind, inclusive=inclusive, probes=probes, via=via, clone=draw(gd.clone_modes()))
 
 
 def check_range(case):
+    _cl = use_clone(case)
     from beyond.dates import Date
     from beyond.dates.date import DateRange
 
@@ -604,7 +624,7 @@ def check_range(case):
            "dividing" if span % step == 0 else "non-dividing"]
     if span == 0:
         cls.append("empty-span")
-    return dict(nt=step < 0 or span % step != 0 or S != S2 or near_midnight(us), cls=cls)
+    return dict(nt=step < 0 or span % step != 0 or S != S2 or near_midnight(us), cls=cls + _cl)
 
 
 def at(us, off, L):
@@ -614,7 +634,7 @@ def at(us, off, L):
 
     if L == "UTC" and not gd.leap_free(us, us + off, leap_days()):
         L = "TAI"
-    return Date(gd.us_to_datetime(readings(us)[L] + off), scale=L)
+    return gd.clone(Date(gd.us_to_datetime(readings(us)[L] + off), scale=L), _CLONE["how"])
 
 
 # ------------------------------------------------------------------ 8b  one DateRange object, modified in place
@@ -637,7 +657,7 @@ def range_history(draw, shard, tier):
     ops = []
     for _ in range(draw(st.integers(2, 8))):
         k = draw(st.sampled_from(["set_inclusive", "set_start", "set_stop", "set_step", "reverse", "reverse",
-                                  "iterate_partially", "len", "contains"]))
+                                  "iterate_partially", "len", "contains", "clone_range"]))
         op = dict(op=k)
         if k == "set_inclusive":
             op["value"] = draw(st.booleans())
@@ -647,11 +667,13 @@ def range_history(draw, shard, tier):
             op["step"] = draw(st.sampled_from(STEP_CHOICES) | gd.mixed_int(1, US_DAY))
         elif k == "iterate_partially":
             op["take"] = draw(st.integers(0, 5))
+        elif k == "clone_range":
+            op["how"] = draw(st.sampled_from(gd.CLONE_MODES))
         elif k == "contains":
             op["probe"] = draw(st.sampled_from(["start", "stop", "start-1", "start+1", "stop-1", "stop+1", "mid"]))
             op["S"] = draw(lab)
         ops.append(op)
-    return dict(us=us, init=init, ops=ops)
+    return dict(us=us, init=init, ops=ops, clone=draw(gd.clone_modes()))
 
 
 def _span_of(spec, step, sign):
@@ -665,6 +687,7 @@ def _span_of(spec, step, sign):
 
 
 def check_range_history(case):
+    _cl = use_clone(case)
     from beyond.dates import Date
 
     us, init = case["us"], case["init"]
@@ -748,6 +771,9 @@ def check_range_history(case):
             rng.start, rng.stop, rng.step = rng.stop, rng.start, -rng.step
             m["start"], m["stop"], m["step"] = m["stop"], m["start"], -m["step"]
             mutated = True
+        elif k == "clone_range":
+            # the range object itself goes through pickle / copy / deepcopy: same range
+            rng = gd.clone(rng, op["how"])
         elif k == "iterate_partially":
             it = iter(rng)
             for _ in range(op["take"]):
@@ -764,7 +790,7 @@ def check_range_history(case):
         done.append(k)
         invariant(k)
     cls = [f"eop:{cfg()}"] + sorted({o["op"] for o in case["ops"]})
-    return dict(nt=mutated, cls=cls)
+    return dict(nt=mutated, cls=cls + _cl)
 
 
 # ------------------------------------------------------------------ 9  constructors
@@ -814,6 +840,102 @@ def check_ctor(case):
     return dict(nt=True, cls=classes_for(us, (S,)))
 
 
+# ------------------------------------------------------------------ 10  clones: pickle / copy / deepcopy
+
+
+@st.composite
+def clone_case(draw, shard, tier):
+    leaps = leap_days()
+    us = draw(gd.instants(leaps, lo_mjd=gd.LO_MJD + 45, hi_mjd=gd.HI_MJD - 45))
+    if draw(st.integers(0, 3)) == 0:
+        # the last seconds of a UTC day: TAI / TT / TDB / GPS already read the next day
+        us = (us // US_DAY + 1) * US_DAY - draw(gd.mixed_int(1, 70 * US, 2))
+        us = gd.push_out_of_leap_windows(us, leaps)
+    return dict(us=us, S=draw(gd.scales()), how=draw(st.sampled_from(gd.CLONE_MODES)), t=draw(gd.timedeltas_us()),
+                holder=draw(st.sampled_from(["date", "date", "list", "dict", "range", "tuple-of-same"])),
+                via=draw(st.sampled_from(["datetime", "change_scale", "arithmetic"])))
+
+
+def check_clone(case):
+    from beyond.dates import Date
+
+    _CLONE["how"] = "none"
+    us, S, how = case["us"], case["S"], case["how"]
+    T = _dt.timedelta(microseconds=case["t"])
+    d = mk(us, S)
+    if case["via"] == "change_scale":
+        d = mk(us, "UTC" if S != "UTC" else "TT").change_scale(S)
+    elif case["via"] == "arithmetic":
+        d = (d + T) - T
+    holder = case["holder"]
+    if holder == "date":
+        c = gd.clone(d, how)
+    elif holder == "list":
+        c = gd.clone([d, 1.0, "x"], how)[0]
+    elif holder == "dict":
+        c = gd.clone({"epoch": d}, how)["epoch"]
+    elif holder == "tuple-of-same":
+        a, b = gd.clone((d, d), how)
+        if not (a == b and hash(a) == hash(b)):
+            raise Violation("clone-pair", f"{how} of (d, d) gives two dates that differ: {a} / {b}")
+        c = b
+    else:
+        span_us = case["t"] if case["t"] else US
+        r0 = Date.range(d, _dt.timedelta(microseconds=span_us),
+                        _dt.timedelta(microseconds=(abs(span_us) // 3 + 1) * (1 if span_us > 0 else -1)))
+        r1 = gd.clone(r0, how)
+        if [reading_us(x) for x in r1] != [reading_us(x) for x in r0] or len(r1) != len(r0) or r1.inclusive != r0.inclusive:
+            raise Violation("clone-range", f"{how} of {r0.start} .. {r0.stop} iterates differently")
+        c = r1.start
+    what = f"{how} clone ({holder}) of {d}"
+
+    def same(name, a, b):
+        if isinstance(a, float) and isinstance(b, float) and math.isnan(a) and math.isnan(b):
+            return
+        if not (a == b):
+            raise Violation(f"clone-{name.split('(')[0].split('.')[0]}", f"{what}: {name} = {a!r}, original {b!r}")
+
+    if type(c) is not type(d):
+        raise Violation("clone-type", f"{what}: type {type(c).__name__}")
+    same("scale", str(c.scale), str(d.scale))
+    for attr in ("d", "s", "_d", "_s", "_offset", "mjd", "_mjd", "jd"):
+        same(attr, float(getattr(c, attr)), float(getattr(d, attr)))
+    same("datetime", c.datetime, d.datetime)
+    same("str", str(c), str(d))
+    if not (c == d and d == c and not (c != d) and not (c < d) and not (c > d) and c <= d and c >= d):
+        raise Violation("clone-eq", f"{what}: the clone does not compare equal to the original")
+    same("hash", hash(c), hash(d))
+    if c not in {d} or {d: 1}.get(c) != 1:
+        raise Violation("clone-hash", f"{what}: a set / dict holding the original does not find the clone")
+    same("difference", td_us(c - d), 0)
+    for k in FIELDS:
+        same(f"eop.{k}", getattr(c.eop, k), getattr(d.eop, k))
+    # every conversion and every arithmetic result is the one of the original, exactly
+    for X in iers.SCALES:
+        a, b = c.change_scale(X), d.change_scale(X)
+        same(f"change_scale({X}).datetime", a.datetime, b.datetime)
+        same(f"change_scale({X})._d", a._d, b._d)
+        same(f"change_scale({X})._s", float(a._s), float(b._s))
+        same(f"change_scale({X}).eop.ut1_utc", a.eop.ut1_utc, b.eop.ut1_utc)
+        if not a == b:
+            raise Violation("clone-change_scale", f"{what}: change_scale({X}) = {a}, original gives {b}")
+    for name, f in (("d + t", lambda x: x + T), ("d - t", lambda x: x - T), ("(d + t) - d", lambda x: (x + T) - d),
+                    ("Date(d)", lambda x: Date(x)), ("julian_century", lambda x: x.julian_century)):
+        a, b = f(c), f(d)
+        same(name, a, b)
+        if isinstance(a, Date):
+            same(name + " reading", a.datetime, b.datetime)
+            same(name + " _s", float(a._s), float(b._s))
+    third = mk(us + case["t"], "TAI")
+    for op in ("__lt__", "__le__", "__gt__", "__ge__", "__eq__"):
+        same(f"{op}(third)", getattr(c, op)(third), getattr(d, op)(third))
+    same("third - clone", td_us(third - c), td_us(third - d))
+    cls = classes_for(us, (S,)) + [f"how:{how}", f"holder:{holder}", f"via:{case['via']}", f"scale:{S}"]
+    if labels_straddle(readings(us)):
+        cls.append("labels-straddle-0h")
+    return dict(nt=True, cls=cls)
+
+
 # ------------------------------------------------------------------ facets
 
 FACETS = [
@@ -843,6 +965,9 @@ FACETS = [
     Facet("daterange_history", range_history, check_range_history, setup=setup_conv,
           rule="the range object was modified in place at least once (inclusive / start / stop / step / reversed)",
           quick=(4, 300), thorough=(16, 2500)),
+    Facet("clone", clone_case, check_clone, setup=setup_conv,
+          rule="every case: a Date (alone or held by a list / dict / DateRange) after pickle / copy / deepcopy",
+          quick=(8, 500), thorough=(16, 5000)),
     Facet("constructors", ctor_case, check_ctor, setup=setup_conv,
           rule="every case: five constructor forms of one reading", quick=(4, 500), thorough=(8, 3000)),
 ]
